@@ -502,7 +502,8 @@ def gen_layout(rng, h, w, kind):
     cells = [(r, c) for r in range(h) for c in range(w)]
 
     def val():
-        return rng.randint(1, 9)
+        # mostly positive, some negative (non-zero finite values are targets whatever their sign)
+        return rng.randint(1, 9) * (-1 if rng.random() < 0.2 else 1)
     if kind == 'single':
         pos = rng.choice(['corner', 'edge', 'inner', 'any'])
         if pos == 'corner':
@@ -710,7 +711,7 @@ def run(ctx):
     if ctx.quick():
         cases = build_cases(ctx, 32, 9, 5)
     else:
-        cases = build_cases(ctx, 900, 300, 150)
+        cases = build_cases(ctx, 420, 120, 60)
     pool = ImplPool()
     try:
         results = pool.map([{'op': 'numpy3', 'case': c} for c in cases])
